@@ -199,3 +199,12 @@ def run(res, ctx):
     res.assumptions += ["CSV tokenisation/quoting (csv crate) is exercised, not modelled: the end-to-end pass tokenises with Python's csv module (same RFC-4180 dialect on the generated texts)",
                         "header recognition and field parsing are the byte-level model of Model/CsvFields.v / CsvTable.v: ASCII case folding (str::to_lowercase / to_uppercase on non-ASCII letters is outside; for header recognition this loses nothing, no column name contains a letter that a non-ASCII character folds to), str::trim on the Unicode White_Space bytes",
                         "a USD amount without an exchange rate needs the rate loader (RejOther 98 in the bridge model): outside"]
+
+
+def replay(res, ctx, path):
+    def pair(runs):
+        if "input_original" in runs and "input_relaid" in runs:
+            d = same_results(runs["input_original"]["impl"], runs["input_relaid"]["impl"])
+            return ["re-laid-out input gives different results: " + d] if d else []
+        return []
+    return corecheck.replay(res, ctx, path, pair_judge=pair)
